@@ -17,6 +17,7 @@ def registry : List Suite := [
   Suites.Loop.mkSuite "loop-dl",
   Suites.Loop.mkSuite "lifecycle",
   Suites.Loop.mkSuite "loop-magnet",
+  Suites.Loop.mkSuite "private",
   Suites.Request.suite,
   Suites.Readpath.suite,
   Suites.WQ.suite,
